@@ -25,4 +25,6 @@ InvFraming == T.t \in DOMAIN FramedOp =>
 InvTemplate == T.t = "ResourceTemplate" =>
                  LET d == PkgDec(B, 1) sz == IntDec(B, 1 + d.k) payload == From(B, sz.n) w == ResItems(payload, 0, <<>>) IN
                  sz.ok /\ Val(sz.v) = Len(payload) /\ w.ok /\ Len(w.items) = Len(T.ch) + 1
+\* C15 on the specification: alternative construction paths have the same reference encoding
+InvAlt == "b" \in DOMAIN Corpus[i] => Enc(Corpus[i].tree) = Enc(Corpus[i].b)
 =============================================================================
